@@ -24,7 +24,8 @@ ASSUMPTIONS = ["rounding allowance lambda_min >= -1e-9*lambda_max in float64 (ca
 ANCHOR_FILES = ["gpytorch/kernels/", "gpytorch/distributions/multivariate_normal.py", "gpytorch/models/exact_prediction_strategies.py", "gpytorch/likelihoods/noise_models.py", "gpytorch/variational/"]
 
 KERNELS = ["rbf", "rbf_ard", "matern0.5", "matern1.5", "matern2.5", "rq", "periodic", "linear", "poly2", "pp0", "pp1", "pp2", "pp3", "sm", "cosine", "constant", "scale_rbf", "sum", "prod",
-           "cylindrical", "hamming", "rbfgrad", "m52grad", "rbfgradgrad", "multitask", "additive_structure", "rff", "spectral_delta", "arc", "polygrad"]
+           "cylindrical", "hamming", "rbfgrad", "m52grad", "rbfgradgrad", "multitask", "additive_structure", "rff", "spectral_delta", "arc", "polygrad",
+           "rbfgrad_ard", "m52grad_ard", "rbfgradgrad_ard", "matern2.5_ard"]
 GEOMS = ["random", "dups", "near1e-9", "near1e-6", "near1e-3", "collinear", "cluster_far", "single", "offset1e6"]
 LS = [1e-2, 1.0, 1e2]
 
@@ -151,6 +152,8 @@ def _mk_kernel(name, d, ls):
         "sm": lambda: K.SpectralMixtureKernel(num_mixtures=2, ard_num_dims=d), "cosine": lambda: K.CosineKernel(), "constant": lambda: K.ConstantKernel(),
         "scale_rbf": lambda: K.ScaleKernel(K.RBFKernel()), "sum": lambda: K.ScaleKernel(K.MaternKernel(nu=1.5)) + K.LinearKernel(), "prod": lambda: K.RBFKernel() * K.PeriodicKernel(),
         "cylindrical": lambda: K.CylindricalKernel(3, K.MaternKernel(nu=2.5)), "hamming": lambda: K.HammingIMQKernel(vocab_size=3),
+        "rbfgrad_ard": lambda: K.RBFKernelGrad(ard_num_dims=d), "m52grad_ard": lambda: K.Matern52KernelGrad(ard_num_dims=d), "rbfgradgrad_ard": lambda: K.RBFKernelGradGrad(ard_num_dims=d),
+        "matern2.5_ard": lambda: K.MaternKernel(nu=2.5, ard_num_dims=d),
         "rbfgrad": lambda: K.RBFKernelGrad(), "m52grad": lambda: K.Matern52KernelGrad(), "rbfgradgrad": lambda: K.RBFKernelGradGrad(), "polygrad": lambda: K.PolynomialKernelGrad(power=2),
         "multitask": lambda: K.MultitaskKernel(K.RBFKernel(), num_tasks=2, rank=1), "additive_structure": lambda: K.AdditiveStructureKernel(K.RBFKernel(), num_dims=d),
         "rff": lambda: K.RFFKernel(num_samples=5, num_dims=d), "spectral_delta": lambda: K.SpectralDeltaKernel(num_dims=d, num_deltas=6), "arc": lambda: K.ArcKernel(K.MaternKernel(nu=2.5)),
@@ -159,7 +162,8 @@ def _mk_kernel(name, d, ls):
     for mod in k.modules():
         if getattr(mod, "has_lengthscale", False) and not isinstance(mod, gpytorch.kernels.ArcKernel):
             try:
-                mod.lengthscale = ls
+                # ARD kernels get clearly different lengthscales per input dimension
+                mod.lengthscale = ls * torch.linspace(0.6, 1.7, mod.ard_num_dims) if getattr(mod, "ard_num_dims", None) and mod.ard_num_dims > 1 else ls
             except Exception:
                 pass
     return k
@@ -188,11 +192,27 @@ def _history(case, ctx, g):
         seq = ["pred"] + [rnd.choice(ops) for _ in range(case["length"])] + [rnd.choice(["pred", "pred_fpv" if fam.exact else "pred", "pred_eager"])]
     state = {"fam": fam}
     m = fam.make()
+    def degenerate():
+        """the state itself is numerically dead (an optimiser step drove a constrained value to 0 / inf): a fresh model
+        holding the same parameters and data cannot predict either - not a property of any covariance handed out"""
+        try:
+            fr = H.fresh_like(state, m)
+            o = H.predict(fr, fam.xs)
+            return not (bool(torch.isfinite(o[0]).all()) and bool(torch.isfinite(o[1]).all()))
+        except Exception:
+            return True
+
     for op in seq:
+        mark = len(ctx._fail)
         try:
             out = H.apply_op(case["family"], m, op, state)
         except Exception as e:
+            del ctx._fail[mark:]
             ctx.reject(f"operation raised: {case['family']}:{op}: {type(e).__name__}")
+            return
+        if len(ctx._fail) > mark and any("non-finite" in f_.get("detail", "") for f_ in ctx._fail[mark:]) and degenerate():
+            del ctx._fail[mark:]
+            ctx.reject(f"numerically dead state after {op}: {case['family']}")
             return
         if out is not None and op != "pred_skipvar":
             _psd_report(ctx, "history_covariance_psd", out[1], f"prediction ({op}) after {seq}", family=case["family"], op=op)
@@ -239,6 +259,17 @@ def _gram(case, ctx, g):
     ctx.worst["gram:" + name] = max(ctx.worst.get("gram:" + name, 0.0), max(0.0, -rel) / PSD_TOL)
     ctx.expect("gram_psd", rel >= -PSD_TOL, f"{name} Gram matrix lambda_min/lambda_max = {rel:.3e} ({case['geom']}, ls={case['ls']}, d={d})", rel_min_eig=rel, **kw)
     ctx.close("gram_one_arg_equals_two_args", K1, K2, (1e-9, 1e-9), cls="gram:" + name)
+    # the variance a distribution REPORTS for this covariance (computed through the kernel's diag path while the covariance
+    # is still lazy) is the diagonal of the covariance it hands out
+    try:
+        import gpytorch
+
+        with torch.no_grad():
+            rep = gpytorch.distributions.MultivariateNormal(torch.zeros(K1.shape[-1]), kern(x)).variance
+        floor = S.min_variance.value(torch.double)
+        ctx.close("reported_variance_is_covariance_diagonal", rep, torch.diagonal(K1).clamp_min(floor), (1e-8, 1e-8), cls="gram_var:" + name, **kw)
+    except NotImplementedError:
+        pass
     dg = torch.diagonal(K1)
     ctx.expect("gram_diag_nonnegative", bool((dg >= -1e-12 * dg.abs().max().clamp_min(1e-300)).all()), f"{name}: negative diagonal entry {float(dg.min()):.3e}", **kw)
     ctx.cell({k: v for k, v in case.items() if k != "seed"}, nontrivial=x.shape[0] >= 2)
